@@ -474,6 +474,24 @@ func vfRunC16Case(env *vfEnv, part *vfPart, caseNo int) {
 				if nLock > 1 || upd {
 					sig = "re-locked-or-updated-hold"
 				}
+				if sig == "" && img.Live != nil {
+					// replay re-admits holds through the normal admission rule (C07 finding):
+					// once the records of an older holder with a larger Count are compacted
+					// away, a key held by more holders than its smallest Count admits cannot
+					// be rebuilt
+					if lk := img.Live.find(d.Db, d.Key); lk != nil {
+						depth, cmin := 0, 0x10000
+						for _, lh := range lk.Holds {
+							depth += int(lh.Depth)
+							if int(lh.Count) < cmin {
+								cmin = int(lh.Count)
+							}
+						}
+						if depth-1 > cmin {
+							sig = "key-held-by-more-than-its-smallest-count-admits"
+						}
+					}
+				}
 			}
 			if len(findings) < 3 {
 				doc[fmt.Sprintf("image_%d_log", ix)] = strings.Split(vfAofDirText(img.Dir, "image at "+img.Point+" ("+img.Phase+")")+vfAofDirText(img.I0, "directory when the compaction started"), "\n")
